@@ -40,7 +40,14 @@ func genC03(t *rapid.T) *Scenario {
 		ctrls = []string{engine.CtrlClusterObjectSet, engine.CtrlClusterObjectSet, engine.CtrlClusterObjectSetPhase}
 	}
 	for i := 0; i < n; i++ {
-		switch rapid.IntRange(0, 9).Draw(t, "kind") {
+		switch rapid.IntRange(0, 10).Draw(t, "kind") {
+		case 10:
+			// pause / unpause: the only user action that moves the generation of an existing ObjectSetPhase
+			if rapid.Bool().Draw(t, "pause") {
+				sc.Steps = append(sc.Steps, Step{Op: "pauseSet", I: 0})
+			} else {
+				sc.Steps = append(sc.Steps, Step{Op: "unpauseSet", I: 0})
+			}
 		case 0, 1, 2, 3, 4:
 			sc.Steps = append(sc.Steps, GenReconcile(t, ctrls))
 		case 5, 6:
